@@ -81,7 +81,8 @@ type roles struct {
 	runInits       *FuncInfo // method of *scope ranging over the provider's initializer list
 	newScope       *FuncInfo
 	allocScope     *FuncInfo // function containing the &scope{} literal
-	doBuild        *FuncInfo // the build function: the *collection method that runs the cycle check
+	doBuild        *FuncInfo // the build function: runs the cycle check (itself or through cycleHelper) and allocates the provider (itself or through allocProvider)
+	cycleHelper    *FuncInfo // the private helper of doBuild that fills the graph and runs the cycle check, when it is not doBuild itself
 	allocProvider  *FuncInfo // function containing the &provider{} literal (doBuild or a private helper of it)
 	createAll      *FuncInfo // method of *provider calling TopologicalSort
 	cache          *types.Var
@@ -396,13 +397,61 @@ func resolveRoles(w *World) *roles {
 		ro.resolveTop = up
 	}
 	ro.newScope = w.Fn(w.Godi, "newScope")
+	// the function that runs the cycle check (a collection method, or a plain helper of the build)
+	var cycleFn *FuncInfo
 	for _, fi := range w.FuncsOf(w.Godi) {
-		if rn := recvNamed(fi.Obj); rn == nil || rn.Obj().Name() != "collection" {
-			continue
+		isColl := false
+		if rn := recvNamed(fi.Obj); rn != nil && rn.Obj().Name() == "collection" {
+			isColl = true
 		}
 		for _, c := range callsIn(fi.Decl.Body, true) {
 			if cal := callee(fi.Pkg.TypesInfo, c); cal != nil && cal.Name() == "DetectCycles" && recvNamed(cal) != nil && recvNamed(cal).Obj().Name() == "DependencyGraph" {
-				ro.doBuild = fi
+				if cycleFn == nil || isColl {
+					cycleFn = fi
+				}
+			}
+		}
+	}
+	ro.doBuild = cycleFn
+	if cycleFn != nil && ro.allocProvider != nil && cycleFn != ro.allocProvider {
+		reaches := false
+		for _, f := range w.Within(cycleFn, 2) {
+			if f == ro.allocProvider {
+				reaches = true
+			}
+		}
+		if !reaches {
+			// cycle check and allocation are siblings: the build function is their closest common caller
+			up := func(f *FuncInfo) map[*FuncInfo]int {
+				out := map[*FuncInfo]int{f: 0}
+				frontier := []*FuncInfo{f}
+				for d := 1; d <= 2; d++ {
+					var next []*FuncInfo
+					for _, g := range frontier {
+						for c := range w.Callers()[g] {
+							if _, seen := out[c]; !seen && c.Pkg == w.Godi {
+								out[c] = d
+								next = append(next, c)
+							}
+						}
+					}
+					frontier = next
+				}
+				return out
+			}
+			a, b := up(cycleFn), up(ro.allocProvider)
+			var best *FuncInfo
+			bestD := 99
+			for f, da := range a {
+				if db, ok := b[f]; ok && f != cycleFn {
+					if d := da + db; d < bestD || (d == bestD && best != nil && f.Decl.Pos() < best.Decl.Pos()) {
+						best, bestD = f, d
+					}
+				}
+			}
+			if best != nil {
+				ro.doBuild = best
+				ro.cycleHelper = cycleFn
 			}
 		}
 	}
@@ -969,12 +1018,22 @@ func ruleWatcher(w *World, r *Report, rule string) {
 			r.Fail(rule, con, fi.Decl.Pos(), "%s does not derive a cancellable context and create a scope with it", fi.Name())
 			continue
 		}
-		if len(cs.goStmts) != 1 {
+		var g ast.Node
+		var ctxE, scE ast.Expr
+		bad := ""
+		if len(cs.goStmts) == 0 {
+			// the watcher may be started by a private helper that is handed the new scope and the
+			// derived context (child.closeOnDone(ctx)): one go statement, a watcher of its parameters
+			g, ctxE, scE = watcherThroughHelper(w, fi)
+		}
+		if g == nil && len(cs.goStmts) != 1 {
 			r.Fail(rule, con, fi.Decl.Pos(), "%s starts %d goroutines; exactly one watcher (wait for the derived context, then close the new scope) is required so that cancelling the caller's context closes the scope", fi.Name(), len(cs.goStmts))
 			continue
 		}
-		g := cs.goStmts[0]
-		ctxE, scE, bad := watcherOf(w, info, g)
+		if g == nil {
+			g = cs.goStmts[0]
+			ctxE, scE, bad = watcherOf(w, info, cs.goStmts[0])
+		}
 		if bad == "" {
 			switch {
 			case ctxE == nil:
@@ -1019,7 +1078,7 @@ func ruleWatcher(w *World, r *Report, rule string) {
 			}
 			// the success exit is reached only after the watcher was started
 			ev := fl.Solve(Spec{Must: true, Node: func(n ast.Node, in Facts) (gen, kill []string) {
-				if n == ast.Node(g) {
+				if n == g {
 					gen = append(gen, "watcher")
 				}
 				return
@@ -1036,6 +1095,79 @@ func ruleWatcher(w *World, r *Report, rule string) {
 			r.OK(rule, con, g.Pos(), true, "one watcher: waits on Done() of the context returned by this WithCancel, then closes the scope created here; started on every path that returns the scope")
 		}
 	}
+}
+
+// watcherThroughHelper: a statement of fi that calls a private function whose
+// body starts exactly one goroutine, a watcher of the helper's own parameters;
+// returns the statement and the call-site expressions standing for the context
+// the goroutine waits on and the scope it closes.
+func watcherThroughHelper(w *World, fi *FuncInfo) (ast.Node, ast.Expr, ast.Expr) {
+	info := fi.Pkg.TypesInfo
+	var node ast.Node
+	var ctxE, scE ast.Expr
+	found := 0
+	for _, n := range w.FlowOf(fi).Nodes() {
+		es, ok := n.(*ast.ExprStmt)
+		if !ok {
+			continue
+		}
+		c, ok := es.X.(*ast.CallExpr)
+		if !ok {
+			continue
+		}
+		cal := callee(info, c)
+		if cal == nil || cal.Exported() || w.Decls[cal] == nil {
+			continue
+		}
+		h := w.Decls[cal]
+		hinfo := h.Pkg.TypesInfo
+		var gos []*ast.GoStmt
+		ast.Inspect(h.Decl.Body, func(x ast.Node) bool {
+			if g, ok := x.(*ast.GoStmt); ok {
+				gos = append(gos, g)
+			}
+			return true
+		})
+		if len(gos) != 1 {
+			continue
+		}
+		hc, hs, bad := watcherOf(w, hinfo, gos[0])
+		if bad != "" || hc == nil || hs == nil {
+			continue
+		}
+		// map the helper's context / scope operands back to the call site
+		back := func(e ast.Expr) ast.Expr {
+			o := objOf(hinfo, e)
+			if o == nil {
+				return nil
+			}
+			if h.Decl.Recv != nil && len(h.Decl.Recv.List[0].Names) == 1 && hinfo.Defs[h.Decl.Recv.List[0].Names[0]] == o {
+				if rcv, _, isM := methodCall(c); isM {
+					return rcv
+				}
+			}
+			k := 0
+			for _, fl := range h.Decl.Type.Params.List {
+				for _, nm := range fl.Names {
+					if hinfo.Defs[nm] == o && k < len(c.Args) {
+						return c.Args[k]
+					}
+					k++
+				}
+			}
+			return nil
+		}
+		ce, se := back(hc), back(hs)
+		if ce == nil || se == nil {
+			continue
+		}
+		found++
+		node, ctxE, scE = n, ce, se
+	}
+	if found != 1 {
+		return nil, nil, nil
+	}
+	return node, ctxE, scE
 }
 
 // ruleCancelOwnership: R14.5 / R10.5b. On every path from WithCancel to a
@@ -1299,10 +1431,80 @@ func overlapIdiom(w *World, fi *FuncInfo, call *ast.CallExpr) bool {
 		if dead, ok := disposedTest(info, cond, flag); ok && dead == (i == 0) {
 			gen = append(gen, "dead")
 		}
+		// `!p.trackDisposable(d)`: a private tracking helper that answers false exactly where it
+		// found the flag set (inside its own critical section)
+		c, neg := unparen(cond), false
+		if u, isU := c.(*ast.UnaryExpr); isU && u.Op == token.NOT {
+			c, neg = unparen(u.X), true
+		}
+		if hc, isC := c.(*ast.CallExpr); isC {
+			if cal := callee(info, hc); cal != nil && !cal.Exported() && w.Decls[cal] != nil && falseMeansDisposed(w, w.Decls[cal], flag) {
+				// the call is false on edge i==1 (or i==0 under negation)
+				if (i == 1) != neg {
+					gen = append(gen, "dead")
+				}
+			}
+		}
 		return
 	}})
 	n := fl.NodeContaining(call.Pos())
 	return n != nil && sol.Before[n].Has("dead")
+}
+
+// falseMeansDisposed: h returns a bool; every `return false` of h is reached
+// only after the disposed flag was found set, and no `return true` is.
+func falseMeansDisposed(w *World, h *FuncInfo, flag *types.Var) bool {
+	sig, ok := h.Obj.Type().(*types.Signature)
+	if !ok || sig.Results().Len() != 1 {
+		return false
+	}
+	if b, isB := sig.Results().At(0).Type().Underlying().(*types.Basic); !isB || b.Kind() != types.Bool {
+		return false
+	}
+	info := h.Pkg.TypesInfo
+	fl := w.FlowOf(h)
+	must := fl.Solve(Spec{Must: true, Edge: func(b *cfg.Block, i int, cond ast.Expr, in Facts) (gen, kill []string) {
+		if cond == nil {
+			return
+		}
+		if dead, ok := disposedTest(info, cond, flag); ok && dead == (i == 0) {
+			gen = append(gen, "dead")
+		}
+		return
+	}})
+	may := fl.Solve(Spec{Must: false, Edge: func(b *cfg.Block, i int, cond ast.Expr, in Facts) (gen, kill []string) {
+		if cond == nil {
+			return
+		}
+		if dead, ok := disposedTest(info, cond, flag); ok && dead == (i == 0) {
+			gen = append(gen, "dead")
+		}
+		return
+	}})
+	nFalse := 0
+	for _, ex := range fl.Exits() {
+		if ex.Ret == nil || len(ex.Ret.Results) != 1 {
+			return false
+		}
+		id, isId := unparen(ex.Ret.Results[0]).(*ast.Ident)
+		if !isId {
+			return false
+		}
+		switch id.Name {
+		case "false":
+			nFalse++
+			if !must.AtExit(ex).Has("dead") {
+				return false
+			}
+		case "true":
+			if may.AtExit(ex).Has("dead") {
+				return false
+			}
+		default:
+			return false
+		}
+	}
+	return nFalse > 0
 }
 
 var _ = strings.HasPrefix
